@@ -120,6 +120,45 @@ CHECKS["C07"] = dict(
           "storage at the call, on every input of the domain."),
     note=SEM_NOTE, technique=SEM_TECH, design_ref="DESIGN.md section 4 C07", engine="FortranSem")
 
+CHECKS["C14"] = dict(
+    level="model_checking",
+    text=("PSyIRTree.tla: nodes with kinds, children/parent, ValidAt transcribed from the documented "
+          "_children_valid_format strings, 17 public editing calls with Python list index semantics, each "
+          "Success(effect and WellFormed') or Refuse(UNCHANGED); TLC enumerates all histories (bound 2-3) over "
+          "8 universes of 5-6 nodes incl. structural twins and ancestors as candidate children, indices "
+          "-(len+2)..len+2, and dumps every labelled transition; each is replayed on REAL PSyIR nodes and the "
+          "recorded (pre, call, outcome, post) tuples are validated by TLC (raised => unchanged; returned => "
+          "ParentChildAgree, ValidAtPosition, Acyclic), plus 1350 generated histories of 30 calls."),
+    note=("Trusted: projection of real nodes (c14_real.py). Exhaustive within the stated universes and "
+          "history bounds. Eight genuine defect shapes are listed in findings.d/C14.json."),
+    technique="TLA+ state machine + TLC exhaustive exploration, every transition replayed on the real objects and validated by TLC",
+    design_ref="DESIGN.md section 4 C14, F.1", engine="PSyIRTree")
+CHECKS["C22"] = dict(
+    level="model_checking",
+    text=("LFRicHalo.tla: per field component the true state (annexed ok, halo clean to depth) and the "
+          "recorded flag; steps = items of a generated PSy layer (guarded/unguarded/async halo exchanges, "
+          "cell/dof loops with bound kind and depth, set_dirty/set_clean); truth rules transcribed from the "
+          "developer guide. Design-level protocol model-checked; ~7000 real generated PSy layers (all LFRic "
+          "test algorithms x both annexed settings x transformation histories <= 2 of redundant computation, "
+          "colouring+OMP, async halo exchange) are itemised from the generated Fortran and TLC runs each step "
+          "sequence from every initial truth/flag state, depth H in 1..3 and stencil extent: NoDirtyRead, "
+          "FlagSound, AnnexedStayClean."),
+    note=("Trusted: the itemiser of generated Fortran (fails closed: unsupported counted) and the "
+          "transcription of the developer-guide rules. Two genuine defect shapes in findings.d/C22.json."),
+    technique="TLA+ run-time halo model; TLC trace validation of itemised generated code from all initial states",
+    design_ref="DESIGN.md section 4 C22, F.3", engine="LFRicHalo")
+CHECKS["C28"] = dict(
+    level="model_checking",
+    text=("Every consecutive-statement placement (top level and inside loop/IF bodies, named and unnamed, and "
+          "histories of two placements) of ProfileTrans, ExtractTrans, NanTestTrans, ReadOnlyVerifyTrans on "
+          "generated routines with EXIT/CYCLE/RETURN at every position; accepted placements are lowered by "
+          "PSyclone, the PreStart/PostEnd calls of the written code are exported as events and TLC executes "
+          "the program under FortranSem.tla on every path (conditions and trip counts are inputs): the "
+          "event log is well nested, closed at the end, names unique (SemRegion.tla)."),
+    note=SEM_NOTE + " GOTO is not in the family.",
+    technique="TLA+ operational semantics executed by TLC on all paths of the lowered program; event-log invariants",
+    design_ref="DESIGN.md section 4 C28", engine="FortranSem")
+
 NOT_YET = {}
 
 ALL = [f"C{i:02d}" for i in range(1, 30)]
